@@ -55,7 +55,7 @@ def text(cps):
     return ''.join(chr(c) for c in cps)
 
 
-def dump(resources, fmt, target, root, **opts):
+def dump(resources, fmt, target, root, pre_steps=(), **opts):
     """resources: list of (name, fields, rows). Returns (written descriptor, read(path)->bytes, load_source)"""
     import dataflows as DF
     from ..common import tuple_source
@@ -67,7 +67,7 @@ def dump(resources, fmt, target, root, **opts):
             row[k] = None
     with contextlib.redirect_stdout(io.StringIO()):
         if target == 'path':
-            DF.Flow(tuple_source(resources), DF.dump_to_path(out, format=fmt, **opts), wipe).process()
+            DF.Flow(tuple_source(resources), *pre_steps, DF.dump_to_path(out, format=fmt, **opts), wipe).process()
             desc = json.load(open(os.path.join(out, 'datapackage.json')))
 
             def read(p):
@@ -75,7 +75,7 @@ def dump(resources, fmt, target, root, **opts):
             return desc, read, (os.path.join(out, 'datapackage.json'), {})
         os.makedirs(out, exist_ok=True)
         zp = os.path.join(out, 'o.zip')
-        DF.Flow(tuple_source(resources), DF.dump_to_zip(zp, format=fmt, **opts), wipe).process()
+        DF.Flow(tuple_source(resources), *pre_steps, DF.dump_to_zip(zp, format=fmt, **opts), wipe).process()
         z = zipfile.ZipFile(zp)
         desc = json.loads(z.read('datapackage.json'))
         return desc, (lambda p: z.read(p)), (zp, dict(format='datapackage'))
@@ -237,7 +237,12 @@ def typed_case(item):
             opts['temporal_format_property'] = 'outputFormat'
         import copy
         try:
-            desc, read, src = dump(copy.deepcopy(resources), cfg['format'], cfg['target'], root, **opts)
+            pre = []
+            if cfg.get('dirs'):
+                # resource paths with directories: the same file name under different directories must stay different files
+                import dataflows as DF_
+                pre = [DF_.update_resource(x[0], path='y20%02d/sales.csv' % i) for i, x in enumerate(resources)]
+            desc, read, src = dump(copy.deepcopy(resources), cfg['format'], cfg['target'], root, pre_steps=pre, **opts)
         except Exception as e:
             return dict(ok=False, why='dump raised %s: %s' % (type(e).__name__, str(e)[:200]), cfg=cfg)
         problems, files, kf_crlf = [], [], []
@@ -413,7 +418,7 @@ def run():
     mvs = model_missing(rep)
     for cfg in cfgs:
         for _ in range(per):
-            items.append(dict(cfg=dict(cfg, missing=r.choice([None, None] + mvs)), seed=r.randrange(10 ** 9), tier=t))
+            items.append(dict(cfg=dict(cfg, missing=r.choice([None, None] + mvs), dirs=r.random() < 0.3), seed=r.randrange(10 ** 9), tier=t))
     tres = pmap(typed_case, items, chunksize=4)
     errs = harness_errors(tres)
     if errs:
